@@ -243,6 +243,44 @@ def parts_source() -> str:
     return "\n".join(out)
 
 
+def check_ws_history(variant: int, first_extra: bool, second_extra: bool, frames2: int) -> bool:
+    """
+    post: _
+    """
+    # two subscriptions on ONE client: what the first call passed (extra headers) must not leak into the second connection
+    import importlib
+    import sys
+
+    v = list(VARIANTS)[pick(variant, len(VARIANTS))]
+    mod, cls, tracer = VARIANTS[v]
+    from harness._h import NoTracing
+
+    with NoTracing():
+        mod = importlib.reload(sys.modules[cls.__module__])  # pristine module/class state per explored path
+        cls = getattr(mod, cls.__name__)
+    rec = []
+    c = cls.__new__(cls)
+    c.ws_url, c.ws_headers, c.ws_origin, c.ws_connection_init_payload = "ws://x", {"h": "1"}, None, None
+    c.tracer = FakeTracer() if tracer else None
+    c.ws_root_span_name, c.ws_root_context = "s", None
+    old = mod.ws_connect
+    try:
+        for i, extra in enumerate((first_extra, second_extra)):
+            ws = FakeWS(LazyFrames([K_ACK, K_NEXT, K_COMPLETE] if i == 0 or pick(frames2, 2) == 0 else [K_ACK, K_COMPLETE], 3 if i == 0 or pick(frames2, 2) == 0 else 2))
+            mod.ws_connect = FakeConnect(ws, rec)
+            kwargs = {"extra_headers": {"e": str(i)}} if extra else {}
+            out, err = drive(c.execute_ws("subscription S { a }", "S", None, **kwargs))
+            if err is not None:
+                return False
+    finally:
+        mod.ws_connect = old
+    if len(rec) != 2:
+        return False
+    want = [dict({"h": "1"}, **({"e": "0"} if first_extra else {})), dict({"h": "1"}, **({"e": "1"} if second_extra else {}))]
+    got = [r[1].get("extra_headers") for r in rec]
+    return got == want and c.ws_headers == {"h": "1"}
+
+
 def twin_two_yields_then_error(k0: int, k1: int, k2: int, k3: int, k4: int, k5: int, n: int, init_payload: bool, var_kind: int) -> bool:
     """
     pre: 0 <= n <= NMAX
